@@ -30,6 +30,9 @@ def configs(tier):
             out.append({"part": "fit", "nets": nets, "bases": len(nets) == 2, "scheduler": sched, "data": "tensor"})
     for kind in ("complex", "mixed"):
         out.append({"part": "batch-gradients", "kind": kind, "via": "deepcopy"})     # a copied state (checkpoint-while-training)
+    # a checkpoint restored while a run is in progress (load from a callback): the update rule needs the optimizer's
+    # parameter objects to stay the state's - load's contract (C11's obligation set), shared here
+    out.append({"part": "callee-load", "kind": "complex"})
     out.append({"generic": "every shape"})
     out.append({"independence": "complex"})
     out.append({"independence": "mixed"})
@@ -77,6 +80,9 @@ def run_config(ctx, cfg):
     if cfg.get("generic"):
         from contracts import gsets
         return gsets.run(ctx, "C06")
+    if cfg.get("part") == "callee-load":
+        from lemmas import C11
+        return C11._load(ctx, {"fn": "load", "kind": cfg["kind"]})
     if cfg.get("part") == "second-fit":
         return _second_fit(ctx, cfg)
     if cfg["part"] == "fit":
